@@ -130,7 +130,14 @@ func runPreload(c preloadCase, workers int, gate bool, jitter *rand.Rand) preloa
 		ledger.SetReadFaultPlan(c.ReadFail)
 	}
 	doneCh := make(chan error, 1)
-	go func() { doneCh <- cold.BatchPreload(ids, workers) }()
+	go func() {
+		defer func() {
+			if e := recover(); e != nil {
+				doneCh <- fmt.Errorf("panic in BatchPreload: %v", e)
+			}
+		}()
+		doneCh <- cold.BatchPreload(ids, workers)
+	}()
 	out := preloadOutcome{Cache: []int{}}
 	var err error
 	select {
